@@ -528,6 +528,11 @@ def check_point(ctx, c, p, r, st):
     if not close(r['u'], r['u_sym'], 1e-9, umag):
         fail('utility-symbolic', 'utility_one_alternative differs from the value of utility_expression_one_alternative',
              r['u_sym'], r['u'])
+    if isnum(r.get('u_sym_py')) and not close(r['u'], r['u_sym_py'], 1e-9, umag):
+        fail('utility-symbolic-python', 'utility_one_alternative differs from get_value() of '
+             'utility_expression_one_alternative', r['u_sym_py'], r['u'])
+    if isnum(r.get('u_sym_py')):
+        st.extra['python_get_value_compared'] = st.extra.get('python_get_value_compared', 0) + 1
     if not close(r['u'], U, 1e-9, umag):
         fail('utility-closed-form', 'utility_one_alternative differs from the closed form of Model/Mdcev.v', U, r['u'])
     # derivative == engine gradient of the symbolic utility == closed form == central finite difference
@@ -642,7 +647,9 @@ def sol_check(ctx, c, eps_lab, B, sol, imp_u, imp_d, tol, key_kind, what_prefix,
     #    sensitivity of the total to the dual variable is S = sum 1/|u_k''|
     S = sum(1.0 / abs(refs[i].d2(xs[i], eps_lab[i])) for i in cons)
     tot = math.fsum(xs)
-    tolB = 1e-6 * scaleB + 8 * S * max(tol[0], 2.0 ** -48 * abs(lam)) + 1e4 * tol[1]
+    # (the loop may also stop on the budget criterion at a wide bracket and then return a *different* dual variable --
+    #  known finding stale-dual; on random inputs this exceeds E with probability ~ tol_budget / E, hence E >= 1e7 tol)
+    tolB = max(1e-6, 1e7 * tol[1]) * scaleB + 8 * S * max(tol[0], 2.0 ** -48 * abs(lam))
     if abs(tot - B) > tolB:
         fails.append(('budget', 'the budget is not exhausted', B, tot))
     # 3. equal marginal utility on the consumed goods
@@ -675,7 +682,7 @@ def sol_check(ctx, c, eps_lab, B, sol, imp_u, imp_d, tol, key_kind, what_prefix,
                      or (idv == 'inf')):
                 fails.append(('derivative-at-solution', f'derivative_utility_one_alternative({k}) at the forecast '
                               f'(x={xs[i]}) differs from the closed form', d[i], idv))
-    info = {'lam': lam, 'eps_kkt': eps_kkt, 'tot': tot, 'obj': math.fsum(v for v in u if v is not None),
+    info = {'lam': lam, 'eps_kkt': eps_kkt, 'tot': tot, 'tolB': tolB, 'obj': math.fsum(v for v in u if v is not None),
             'umag': math.fsum(abs(v) for v in u if v is not None), 'xs': xs, 'd': d, 'n_consumed': len(cons)}
     return fails, info
 
@@ -770,7 +777,8 @@ def check_forecast_case(ctx, c, r, st):
         # comparison API: it must not cry wolf when both solutions agree
         if info and 'brute_obj' in info and dr.get('comparison') is not None:
             cmpr = dr['comparison']
-            agree = abs(info['brute_obj'] - info['obj']) <= 1e-7 * (1 + abs(info['obj'])) and \
+            # np.isclose inside the comparison: |a - b| <= 1e-8 + 1e-5 |b| ; we only speak when well inside it
+            agree = abs(info['brute_obj'] - info['obj']) <= 0.1 * (1e-8 + 1e-5 * abs(info['brute_obj'])) and \
                 abs(info['brute_tot'] - info['tot']) <= 1e-7 * (1 + abs(B))
             order_differs = r['index_to_key'] != sorted(c['labels'])
             k = 'C18/comparison/sorted-label-vs-position-order' if order_differs else 'C18/comparison/other'
@@ -933,7 +941,7 @@ def kkt_in_coq(ctx, st, items):
         if c['variant'] == 'N':
             mag = max(mag, max(abs(m) + 1 for m in c['mu']))
         epsq = 2e-7 * mag
-        delta = 2e-6 * max(1.0, abs(r['budget'])) + abs(info['tot'] - r['budget']) * 1.000001 + 1e-300
+        delta = info['tolB'] * 1.000001 + 1e-300   # fsum vs exact sum: far below the slack
         rows.append('(' + coq_list([f'({qlit(x)}, {qlit(d)}, 1)' for x, d in trip]) +
                     f', {qlit(r["budget"])}, {qlit(lam)}, {qlit(epsq)}, {qlit(delta)})')
     if not rows:
